@@ -29,6 +29,7 @@ class Engine(Core, ExprMixin, CallMixin, StmtMixin):
         self.last_sum = None
         self.last_sorted = None
         self.defaulted_params = []
+        self.pure_cache = {}
 
     # read_field with the type invariant len >= 0
     def read_field(self, st, obj, attr, node=None, heap=None):
@@ -146,7 +147,67 @@ class Engine(Core, ExprMixin, CallMixin, StmtMixin):
     def base_axioms(self):
         return self.S.lit_axioms()
 
-    def solve(self, ob, timeout_ms=20000, want_model=False):
+    def solve(self, ob, timeout_ms=20000, want_model=False, extract=None):
+        """discharge one obligation in a forked child under a hard wall-clock limit (z3's own timeout is
+        only advisory: some quantifier instantiation loops ignore it for many minutes)"""
+        import os, json, select, signal
+        r_fd, w_fd = os.pipe()
+        t0 = time.time()
+        pid = os.fork()
+        if pid == 0:
+            try:
+                os.close(r_fd)
+                res = self._solve_here(ob, timeout_ms, want_model, extract)
+                os.write(w_fd, json.dumps(res, default=str).encode())
+            except BaseException as ex:      # noqa
+                try:
+                    os.write(w_fd, json.dumps({"result": "unknown", "reason": "solver process error: %s" % ex}).encode())
+                except Exception:
+                    pass
+            finally:
+                os._exit(0)
+        os.close(w_fd)
+        hard = timeout_ms / 1000.0 + 3.0
+        chunks = []
+        try:
+            while True:
+                left = hard - (time.time() - t0)
+                if left <= 0:
+                    break
+                rl, _, _ = select.select([r_fd], [], [], left)
+                if not rl:
+                    break
+                data = os.read(r_fd, 1 << 20)
+                if not data:
+                    break
+                chunks.append(data)
+        finally:
+            os.close(r_fd)
+            try:
+                os.kill(pid, signal.SIGKILL)
+            except Exception:
+                pass
+            try:
+                os.waitpid(pid, 0)
+            except Exception:
+                pass
+        ob.time = time.time() - t0
+        ob.backend = "z3-%s" % z3.get_version_string()
+        if not chunks:
+            ob.result, ob.reason = "unknown", "hard timeout (solver killed after %.0fs)" % hard
+            return ob.result
+        try:
+            res = json.loads(b"".join(chunks).decode())
+        except Exception as ex:
+            ob.result, ob.reason = "unknown", "unreadable solver answer: %s" % ex
+            return ob.result
+        ob.result = res.get("result", "unknown")
+        ob.reason = res.get("reason")
+        ob.model = res.get("model")
+        ob.model_error = res.get("model_error")
+        return ob.result
+
+    def _solve_here(self, ob, timeout_ms, want_model, extract):
         s = z3.Solver()
         s.set("timeout", timeout_ms)
         for a in self.base_axioms():
@@ -156,21 +217,16 @@ class Engine(Core, ExprMixin, CallMixin, StmtMixin):
         for p in ob.path:
             s.add(p)
         s.add(z3.Not(ob.goal))
-        t0 = time.time()
         r = s.check()
-        ob.time = time.time() - t0
-        ob.backend = "z3-%s" % z3.get_version_string()
-        if r == z3.unsat:
-            ob.result = "unsat"
-        elif r == z3.sat:
-            ob.result = "sat"
-            if want_model:
-                ob.model = s.model()
-        else:
-            ob.result = "unknown"
-            ob.reason = s.reason_unknown()
-        ob.smt2_head = None
-        return ob.result
+        out = {"result": "unsat" if r == z3.unsat else ("sat" if r == z3.sat else "unknown")}
+        if r == z3.unknown:
+            out["reason"] = s.reason_unknown()
+        if r == z3.sat and want_model and extract is not None:
+            try:
+                out["model"] = extract(self, s.model())
+            except Exception as ex:
+                out["model_error"] = "%s: %s" % (type(ex).__name__, ex)
+        return out
 
     def to_smt2(self, ob):
         s = z3.Solver()
